@@ -34,16 +34,16 @@
       the pass loop ends (C01), every stack list `analyze_stack` builds covers its track so
       `find_match_length` never reads outside one, `Song::get_track` is never asked for a missing
       track, and the `Song_Validator` after a pass ends (C04) — `C15_optimizer_never_foreign`;
-    * export mds: `C15_mds_export_error_kinds` — the converter model never returns `FErr.riff` nor
-      `FErr.codec .atEmpty`; `FErr.headerWrap` and `FErr.codec .stackEmpty` are `InputError`s of the
-      C++ since repository fixes 8d409a9 / c5dd456 (both were reachable);
+    * export mds: `C15_mds_export_no_ub` — for EVERY input the converter model never returns
+      `FErr.riff`, `FErr.codec .atEmpty`, `FErr.bankIndex` nor `FErr.writer (.player .impossible)`;
+      `FErr.headerWrap` and `FErr.codec .stackEmpty` are `InputError`s of the C++ since repository
+      fixes 8d409a9 / c5dd456 (both were reachable); `C15_mds_export_routed`;
   What is still a HYPOTHESIS of the composition (`StageHyps`, Proofs/PipelineStages), stage by stage:
     * optimise   nothing on `OptDomain`; outside it (a parsed song with 32767 or more events in a
                  track, track ids from 32767, or so many events that `sub_id` could reach 32767 —
                  where the C++ narrows to `int16_t`) the hypothesis `OptInDomain text` is not met;
-    * export mds `MdsNoUB`: the converter model does not index the data bank outside
-                 (`FErr.bankIndex`), its writer's player does not hit the `vector::at` of the
-                 final-pass break, and the MODEL's fixed writer budgets suffice;
+    * export mds `MdsBudgetOK`: the MODEL's fixed writer budgets (20 000 000 player steps per stream,
+                 recursion depth 64) suffice — a bound of the model, the C++ has no such budget;
     * export vgm `VgmNoUB`: the driver model (Model/MdDriver) reports no `vector::at` failure, no
                  non-integer step and no writer fault;
     * link       `LinkOK`: the linker model accepts the converter's file or rejects it with an
@@ -53,7 +53,7 @@
   Memory safety of the compiled binary is not a statement about these models at all: it is
   observed by ASan/UBSan on the generated inputs (checks/c15.py), not proved.
 -/
-import Ctrmml.Proofs.PipelineStages
+import Ctrmml.Proofs.PipelineCompose
 import Ctrmml.Properties.C13
 import Ctrmml.Properties.C20
 import Ctrmml.Properties.C08
@@ -201,11 +201,36 @@ example : OptDomain songRep ∧ OptDomain songDrum ∧ hasEndEvent songRep = fal
 
 /-! ### export mds -/
 
-/-- **Which errors the converter model can end in**: never a failure of the RIFF writer
-(`get_mds` only adds chunks to list chunks) and never `at()` on an empty stream. -/
-theorem C15_mds_export_error_kinds (inp : MdsFile.Input) (e : MdsFile.FErr)
-    (h : MdsFile.exportMds MdsData.Arith.float inp = .error e) : (∀ r, e ≠ .riff r) ∧ e ≠ .codec .atEmpty :=
-  exportMds_err inp e h
+/-- **The converter model has no undefined-behaviour outcome**, for EVERY input (song, definitions,
+side files, platform commands): `exportMds` never fails in the RIFF writer (`get_mds` only adds
+chunks to list chunks), never reports `at()` on an empty stream, never indexes `data_bank` outside
+(the indices `read_song` stores in `envelope_map` / `pitch_map` come from `add_unique_data`, the
+bank only grows, the writer copies them into `used_data_map` and `get_mds` masks the tag bits off),
+and its writer's player never hits the `vector::at` of the final-pass loop break.  What is left of
+`FErr` besides values and `InputError`s is the model's own writer budget (`ferrIsBudget`). -/
+theorem C15_mds_export_no_ub (inp : MdsFile.Input) :
+    (∀ r, MdsFile.exportMds MdsData.Arith.float inp ≠ .error (.riff r)) ∧
+    MdsFile.exportMds MdsData.Arith.float inp ≠ .error (.codec .atEmpty) ∧
+    MdsFile.exportMds MdsData.Arith.float inp ≠ .error .bankIndex ∧
+    MdsFile.exportMds MdsData.Arith.float inp ≠ .error (.writer (.player .impossible)) :=
+  ⟨fun r h => (exportMds_err inp _ h).1 r rfl, fun h => (exportMds_err inp _ h).2 rfl,
+   (exportMds_no_bank_no_at inp).1, (exportMds_no_bank_no_at inp).2⟩
+
+/-- **The mds export stage is routed** for every input whose conversion stays within the model's
+writer budget, given a routed residual for the definitions / platform commands outside the models. -/
+theorem C15_mds_export_routed (u : Residual) (hg : ∀ inp, (u.mdsGap inp).routed) (inp : MdsFile.Input) (gap : Bool)
+    (hb : match MdsFile.exportMds MdsData.Arith.float inp with | .error e => ferrIsBudget e = false | .ok _ => True) :
+    (exportMdsStage u inp gap).routed := by
+  unfold exportMdsStage
+  split
+  · exact hg inp
+  · obtain ⟨h3, h4⟩ := exportMds_no_bank_no_at inp
+    split
+    · trivial
+    · rename_i e he
+      rw [he] at hb h3 h4
+      obtain ⟨h1, h2⟩ := exportMds_err inp e he
+      exact ferrOut_routed inp u.mdsGap e (fun _ => hg inp) hb h1 h2 (fun hb' => h3 (by rw [hb'])) (fun hi => h4 (by rw [hi]))
 
 /-- an input that reached one of the converter's other undefined-behaviour constructors before the
 repairs: a raw `cmd` loop end outside a loop (was `top()` of an empty stack: SIGSEGV), now the input
@@ -280,6 +305,70 @@ theorem C15_pipeline_total_partial (u : Residual) (files : List (String × Bytes
                 rw [ho2] at this
                 exact Out.map_routed _ _ this
 
+/-- **The mds export path without `-O`, no residual at all (partial).**  For every text that parses
+into a state `st` whose definitions and platform commands are inside the converter's models
+(`mdsOutside … = false`, decided by evaluation) and whose conversion stays within the model's
+writer budget (`ferrIsBudget`, decided by evaluation): with enough validator steps `mmlc -f mds`
+ends in the file or in an `InputError` with a message — whatever the residuals are (they are not
+reached).  `_partial`: the two hypotheses are about the MODEL (coverage of C09/C11's models, the
+model's own step budget), not about the code. -/
+theorem C15_pipeline_total_mds_partial (u : Residual) (files : List (String × Bytes)) (text : List Nat)
+    (st : Mml.MmlState) (hst : parseStage text = .ok st)
+    (hin : mdsOutside (mdsInputOf st files).1 (mdsInputOf st files).2 = false)
+    (hbud : match MdsFile.exportMds MdsData.Arith.float (mdsInputOf st files).1 with
+      | .error e => ferrIsBudget e = false | .ok _ => True) :
+    ∃ S, ∀ b : Budget, b.steps ≥ S → (pipeline u files false .mds b text).routed := by
+  obtain ⟨F, hF⟩ := C15_validate_routed (songOf st) (parseStage_noEnd text st hst)
+  refine ⟨F, fun b hb => ?_⟩
+  unfold pipeline pipelineS
+  rw [hst]
+  simp only []
+  have hv := hF b.steps hb
+  cases hvs : validateSong (songOf st) b.steps with
+  | inputError m => rw [hvs] at hv; exact hv
+  | foreign k => rw [hvs] at hv; exact hv.elim
+  | ok _ =>
+    simp only [Bool.false_eq_true, if_false]
+    have hinp : ({ (mdsInputOf st files).1 with song := songOf st } : MdsFile.Input) = (mdsInputOf st files).1 := rfl
+    rw [hinp]
+    unfold mdsOutside at hin
+    simp only [Bool.or_eq_false_iff] at hin
+    unfold exportMdsStage
+    rw [if_neg (by simp [hin.1])]
+    obtain ⟨h3, h4⟩ := exportMds_no_bank_no_at (mdsInputOf st files).1
+    split
+    · trivial
+    · rename_i e he
+      rw [he] at hbud h3 h4 hin
+      obtain ⟨h1, h2⟩ := exportMds_err _ e he
+      refine ferrOut_routed _ u.mdsGap e (fun hd => ?_) hbud h1 h2 (fun hb' => h3 (by rw [hb'])) (fun hi => h4 (by rw [hi]))
+      rw [hd] at hin
+      simp at hin
+
+/-- its hypotheses on a concrete text, decided by evaluation in the kernel (a song whose only track
+is not a channel track, so that the kernel does not have to unfold the writer's 20 000 000-step
+budget; the check's model stream evaluates them on every generated input) -/
+example : ∃ st, parseStage (Lexer.strBytes "*100 c") = .ok st ∧
+    mdsOutside (mdsInputOf st []).1 (mdsInputOf st []).2 = false ∧
+    (match MdsFile.exportMds MdsData.Arith.float (mdsInputOf st []).1 with
+      | .error e => ferrIsBudget e = false | .ok _ => True) := by
+  have key : (match parseStage (Lexer.strBytes "*100 c") with
+      | .ok st => !mdsOutside (mdsInputOf st []).1 (mdsInputOf st []).2 &&
+          (match MdsFile.exportMds MdsData.Arith.float (mdsInputOf st []).1 with
+            | .error e => !ferrIsBudget e | .ok _ => true)
+      | _ => false) = true := by decide +kernel
+  cases h : parseStage (Lexer.strBytes "*100 c") with
+  | ok st =>
+    rw [h] at key
+    simp only [Bool.and_eq_true, Bool.not_eq_true'] at key
+    refine ⟨st, rfl, key.1, ?_⟩
+    have k2 := key.2
+    split at k2
+    · simpa using k2
+    · trivial
+  | inputError m => rw [h] at key; cases key
+  | foreign k => rw [h] at key; cases key
+
 /-- non-vacuity of the composite: residual stages that always succeed; for an mds export of a text
 without definitions … the stage hypotheses are Props about the models (not decidable as a whole);
 the composite is instantiated on the two residuals below and its conclusion evaluated -/
@@ -325,7 +414,7 @@ theorem C15_modelled_components_never_foreign :
 
 /-- The full statement over the pipeline model: the conclusion of `C15_pipeline_total_partial`
 with residual stages that are themselves routed and NO hypothesis on the modelled stages (neither
-`StageHyps`'s `MdsNoUB` / `VgmNoUB` / `LinkOK` nor `OptInDomain`). -/
+`StageHyps`'s `MdsBudgetOK` / `VgmNoUB` / `LinkOK` nor `OptInDomain`). -/
 def C15_full_statement : Prop :=
   ∀ (u : Residual), (∀ inp d, (u.vgmPlay inp d).routed) → (∀ inp, (u.mdsGap inp).routed) →
     ∀ (files : List (String × Bytes)) (opt : Bool) (fmt : Format) (text : List Nat),
